@@ -673,6 +673,10 @@ func (c *compiler) compile(tok *token) []instruction {
 			t := c.toType(arg.Tokens[0])
 			types = append(types, t)
 		}
+		var rtypes []instruction // before the parameters are in scope: func push(node *node, v int) *node means the type
+		for _, ret := range tok.Tokens[funcReturns].Tokens {
+			rtypes = append(rtypes, c.toType(ret))
+		}
 		for i, arg := range tok.Tokens[funcArguments].Tokens {
 			if arg.Text == "_" { // every blank parameter still occupies its own slot
 				c.Locals.Index(fmt.Sprintf("_#%d", i))
@@ -692,10 +696,7 @@ func (c *compiler) compile(tok *token) []instruction {
 			C: reg(len(block)),
 		})
 		res = append(res, types...)
-		for _, ret := range tok.Tokens[funcReturns].Tokens {
-			t := c.toType(ret)
-			res = append(res, t)
-		}
+		res = append(res, rtypes...)
 		res = append(res, block...)
 		c.Returns = c.Returns[:len(c.Returns)-1]
 		c.End()
